@@ -613,3 +613,120 @@ func c17ProbeDeriveQP(c *Ctx) {
 		}
 	}
 }
+
+// ---- fixed weight: the sign of the i-th selected coefficient is the i-th bit of the sign bytes ----
+//
+// Concrete check on the real code (Lean: sparse_signs_are_stream_bits), for H up to N with N >= 1024,
+// i.e. well past 256 selected coefficients.  The replay PRNG serves ceil(H/8) fresh sign bytes, then
+// the 4-byte position draws; the order of the selected positions is known to the harness because it
+// chooses the draws (always index 0, always the last index) or replays the index selection on the
+// bytes it served (random draws).
+func c17ProbeSparseSigns(c *Ctx) {
+	chain := []uint64{12289, 65537} // = 1 mod 4096
+	k := 0
+	for _, N := range []int{1024, 2048} {
+		r := c17Ring(N, chain)
+		hs := []int{255, 256, 257, 300, 511, 512, 1000, N - 1, N}
+		if c.Thorough() {
+			hs = append(hs, 1, 8, 9, 264, 513, 768, 1023, 1024, 1025, N+5)
+		}
+		for _, H := range hs {
+			for pat := 0; pat < 3; pat++ {
+				k++
+				hw := H
+				if hw > N {
+					hw = N
+				}
+				signs := c.rng.Bytes(((hw+7)/8 + 7) / 8 * 8)[:(hw+7)/8]
+				if pat == 0 { // every bit i >= 256 differs from bit i mod 256
+					for b := 32; b < len(signs); b++ {
+						signs[b] = ^signs[b%32]
+					}
+				}
+				st := (&c17Stream{}).Hex(signs)
+				order := make([]int, 0, hw) // position selected at step i
+				index := make([]int, N)
+				for i := range index {
+					index[i] = i
+				}
+				for i := 0; i < hw; i++ {
+					n := N - i
+					mask := uint32(1)<<uint(bitsLen64(uint64(n))) - 1
+					var j int
+					switch pat {
+					case 0:
+						j = 0
+						st.Rep(0, 4)
+					case 1:
+						j = n - 1
+						st.Hex([]byte{byte(j >> 24), byte(j >> 16), byte(j >> 8), byte(j)})
+					default:
+						for {
+							b := c.rng.Bytes(8)[:4]
+							st.Hex(b)
+							v := (uint32(b[0])<<24 | uint32(b[1])<<16 | uint32(b[2])<<8 | uint32(b[3])) & mask
+							if int(v) < n {
+								j = int(v)
+								break
+							}
+						}
+					}
+					order = append(order, index[j])
+					index[j] = index[n-1]
+					index = index[:n-1]
+				}
+				op := "rna"[k%3]
+				mont := k%2 == 0
+				lvl := k % len(chain)
+				before := c17Regs(c, 1, N, chain, 0)[0]
+				args := fmt.Sprintf("N=%d Q=%s H=%d mont=%v op=%c level=%d draws=%s signs=%s", N, Vec(chain), H, mont, op, lvl, []string{"first", "last", "random"}[pat], Hex(signs))
+				detail := Try(func() string {
+					prng := &c17Replay{data: st.data}
+					s, err := ring.NewTernarySampler(prng, r, ring.Ternary{H: H}, mont)
+					if err != nil {
+						return "constructor: " + err.Error()
+					}
+					v := s.AtLevel(lvl)
+					pol := ring.Poly{Coeffs: c17CopyRows(before)}
+					switch op {
+					case 'r':
+						v.Read(pol)
+					case 'n':
+						pol = v.ReadNew()
+					default:
+						v.ReadAndAdd(pol)
+					}
+					if prng.pos != len(st.data) {
+						return fmt.Sprintf("consumed %d bytes, want %d", prng.pos, len(st.data))
+					}
+					plain := ring.NewPoly(N, lvl)
+					for i, p := range order {
+						bit := (signs[i/8] >> uint(i%8)) & 1 // the i-th fresh bit of the stream
+						for row := 0; row <= lvl; row++ {
+							if bit == 0 {
+								plain.Coeffs[row][p] = 1
+							} else {
+								plain.Coeffs[row][p] = chain[row] - 1
+							}
+						}
+					}
+					want := c17Expect(r, lvl, mont, op, before, plain)
+					if d := c17FirstDiff(pol.Coeffs, want); d != "" {
+						// which selected coefficient is the first wrong one?
+						for i, p := range order {
+							if pol.Coeffs[0][p] != want[0][p] {
+								return fmt.Sprintf("%s; first wrong selected coefficient is number %d (position %d)", d, i, p)
+							}
+						}
+						return d
+					}
+					return ""
+				})
+				if detail == "panic" {
+					detail = "panic"
+				}
+				c.Probe("sparse-signs-are-stream-bits", args, "C17/TernaryH/sign-bits-are-stream-bits", detail)
+			}
+		}
+	}
+}
